@@ -1084,6 +1084,261 @@ class Search:
                     self.report(name + ":agree", sides[0][0] + " || " + sides[1][0], sides[0][1], sides[1][1], "the two parties derive different keys")
 
 
+# ------------------------------------------------------------------ structured keys / nonces / hashes: sign-then-verify and key round trips in bulk
+STRUCT_K = (1, 2, 3, -3, -2, -1)        # private keys d = k resp. order + k: the public key is a small multiple of +-(base point)
+
+
+class Structured:
+    """Boundary / structured keys in the round trips the theorems promise (`*_sign_complete`, `*_keygen_valid`, `recover_compress`,
+    `pfok_*_agree`): d in {1, 2, 3, n-3, n-2, n-1} — the verifier's double-scalar multiplication then meets P = +-Q, P + P, P - P inside
+    its window tables —, hashes {0, all-ones, = n, multiples of n, n +- 1, random}, nonces {1, 2, n-1 (largest injectable), random}
+    through the generator tape.  Every produced signature must verify, every generated pair must validate: a rejection is a failing
+    input.  The bulk runs on the implementation alone (it is cheap there); a sample of every (set, key) goes through the
+    correspondence with the model as an extra stage."""
+
+    def __init__(self, ctx, sets, run_c, srch):
+        self.ctx, self.rng, self.run_c, self.srch = ctx, ctx.rng, run_c, srch
+        self.b96, self.g12, self.dstu, self.pfok = sets
+        self.thorough = ctx.tier == "thorough"
+        self.cov = {}
+        self.sample_ops, self.sample_meta = [], []
+
+    def rb(self, n):
+        return bytes(self.rng.getrandbits(8) for _ in range(n))
+
+    def count(self, k, n=1):
+        self.cov[k] = self.cov.get(k, 0) + n
+
+    def reps(self, idx, heavy):
+        """signatures per structured key on parameter set `idx`: 100 on EVERY set in the quick tier (the implementation signs and
+        verifies in well under a millisecond .. a few ms), 300 in the thorough tier; `heavy` only selects the sets from which
+        more samples go through the correspondence with the model"""
+        return 300 if self.thorough else 100
+
+    @staticmethod
+    def klab(k):
+        return str(k) if k > 0 else "n%d" % k
+
+    def hashes_int(self, n, W, count):
+        """hash values as integers below W: the structured ones first, then random"""
+        hs = [0, W - 1, n % W, (n - 1) % W, (n + 1) % W, ((W - 1) // n) * n, 1, 2 * n % W if 2 * n < W else n >> 1]
+        out = []
+        for j in range(count):
+            out.append(hs[j] if j < len(hs) else self.rng.randrange(W))
+        return out
+
+    def sample(self, op, **m):
+        self.sample_ops.append(op)
+        self.sample_meta.append(m)
+
+    def check_all_ok(self, ops, outs, fam, what, signs=None):
+        for j, (op, o) in enumerate(zip(ops, outs)):
+            if not o.startswith("0"):
+                extra = (" [signature produced by: %s]" % signs[j][:300]) if signs else ""
+                self.srch.report("%s:structured" % fam, op, o, "0", what + extra)
+
+    # ---- prime curves
+    def pub_p(self, cv, k):
+        return cv.pub(k) if k > 0 else cv.pt(cv.neg(cv.mul(-k, cv.G)))
+
+    def nonce_tape(self, q, co, j, top=None):
+        """the tape of signature number j: mostly random draws, every 7th a structured nonce"""
+        n2b = lambda v: v.to_bytes(co, "little")
+        top = top or (q - 1)
+        spare = n2b(self.rng.randrange(1, top + 1)) + n2b(self.rng.randrange(1, top + 1))
+        if j % 7 == 3:
+            return n2b((1, 2, top)[(j // 7) % 3]) + spare
+        return n2b(self.rng.randrange(1, top + 1)) + spare
+
+    def run_b96(self):
+        cv, q, W = self.b96, self.b96.q, 1 << 192
+        n2b = lambda v: cv.n2b(v, 24)
+        signs, metas = [], []
+        for k in STRUCT_K:
+            d = k if k > 0 else q + k
+            Q = self.pub_p(cv, k)
+            self.sample("b96.kval %s %s" % (hx(n2b(d)), hx(Q)), kind="expect", expect=OK, what="KeypairVal(d, dG), structured d")
+            self.sample("b96.pcalc " + hx(n2b(d)), kind="b96.pcalc", d=d)
+            self.sample("b96.kgen " + hx(n2b(d)), kind="b96.kgen", tape=n2b(d), lab="structured")
+            for j, h in enumerate(self.hashes_int(q, W, 100)):
+                H = n2b(h)
+                if j % 5 == 4:
+                    op = "b96.sign2 %s %s %s %s" % (hx(OID_HBELT), hx(H), hx(n2b(d)), "N" if j % 2 else hx(self.rb(8)))
+                else:
+                    op = "b96.sign %s %s %s %s" % (hx(OID_HBELT), hx(H), hx(n2b(d)), hx(self.nonce_tape(q, 24, j)))
+                signs.append(op)
+                metas.append((H, Q, k, j))
+        outs = self.run_c(signs)
+        vf, src = [], []
+        for op, (H, Q, k, j), o in zip(signs, metas, outs):
+            w = o.split()
+            if w[0] != "0":
+                self.srch.report("b96.sign:structured", op, o, "0 <sig>", "signing with a valid structured key failed")
+                continue
+            vf.append("b96.vfy %s %s %s %s" % (hx(OID_HBELT), hx(H), w[1], hx(Q)))
+            src.append(op)
+            if j < 2 or j == 10:
+                self.sample(op, kind="bulk")
+                self.sample(vf[-1], kind="bulk")
+        self.check_all_ok(vf, self.run_c(vf), "b96.vfy", "Verify(Sign) != OK for a structured private key (public key = small multiple of +-G)", src)
+        self.count("b96:sign+verify", len(vf))
+
+    def run_g12(self):
+        heavy = {0, 4, 1 + self.ctx.seed % 3, 5 + self.ctx.seed % 3}
+        for cv in self.g12:
+            q, mo, i = cv.q, cv.mo, cv.i
+            W = 1 << (8 * mo)
+            n = self.reps(i, heavy)
+            signs, metas = [], []
+            for k in STRUCT_K:
+                d = k if k > 0 else q + k
+                Q = self.pub_p(cv, k)
+                db = d.to_bytes(mo, "little")
+                self.sample("g12.kgen %d %s" % (i, hx(db)), kind="g12.kgen", cv=cv, tape=db, lab="structured")
+                for j, h in enumerate(self.hashes_int(q, W, n)):
+                    H = h.to_bytes(mo, "big")
+                    signs.append("g12.sign %d %s %s %s" % (i, hx(H), hx(db), hx(self.nonce_tape(q, (q.bit_length() + 7) // 8, j))))
+                    metas.append((H, Q, k, j))
+            outs = self.run_c(signs)
+            vf, src = [], []
+            for op, (H, Q, k, j), o in zip(signs, metas, outs):
+                w = o.split()
+                if w[0] != "0":
+                    self.srch.report("g12.sign:structured", op, o, "0 <sig>", "signing with a valid structured key failed")
+                    continue
+                vf.append("g12.vfy %d %s %s %s" % (i, hx(H), w[1], hx(Q)))
+                src.append(op)
+                if j < 1 or (j == 10 and i in heavy):
+                    self.sample(op, kind="bulk")
+                    self.sample(vf[-1], kind="bulk")
+            self.check_all_ok(vf, self.run_c(vf), "g12.vfy", "Verify(Sign) != OK for a structured private key (public key = small multiple of +-P)", src)
+            self.count("g12[%d]:sign+verify" % i, len(vf))
+
+    # ---- binary curves
+    def run_dstu(self):
+        heavy = {0, 2, 3 + self.ctx.seed % 7}
+        for cv in self.dstu:
+            if cv.P is None:
+                continue
+            i, nn, oo, no = cv.i, cv.n, cv.oo, cv.no
+            Pb, Pt = cv.P, cv.unpt(cv.P)
+            n = self.reps(i, heavy)
+            top = (1 << (cv.nb - 1)) - 1
+            tb = lambda v: v.to_bytes(oo, "little")
+            signs, metas = [], []
+            mult = {1: Pt, 2: cv.add(Pt, Pt)}
+            mult[3] = cv.add(mult[2], Pt)
+            pubs = []
+            for k in STRUCT_K:
+                d = k if k > 0 else nn + k
+                Qt = cv.neg(mult[k]) if k > 0 else mult[-k]          # Q = -dP
+                Q = cv.pt(Qt)
+                pubs.append((k, Qt, Q))
+                if 0 < k:
+                    self.sample("dstu.kgen %d %s %s" % (i, hx(Pb), hx(tb(d))), kind="dstu.kgen", cv=cv, tape=tb(d), lab="structured")
+                hl_cycle = [32, no, no + 1, 1, no - 1, 64]
+                for j in range(n):
+                    hl = hl_cycle[j % 6] if j >= 6 else 32
+                    if j < 6:
+                        H = [bytes(32), b"\xff" * 32, cv.n2b(nn, no), cv.n2b(nn, no) + bytes(3), bytes(no - 1) + b"\x01", b"\x01"][j]
+                    else:
+                        H = self.rb(hl)
+                    ld = 16 * oo + (16 * (j % 4) if j % 3 == 0 else 0)
+                    signs.append("dstu.sign %d %s %d %s %s %s" % (i, hx(Pb), ld, hx(H), hx(tb(d)), hx(self.nonce_tape(nn, oo, j, top))))
+                    metas.append((H, Q, k, j, ld))
+            outs = self.run_c(signs)
+            vf, src = [], []
+            for op, (H, Q, k, j, ld), o in zip(signs, metas, outs):
+                w = o.split()
+                if w[0] != "0":
+                    self.srch.report("dstu.sign:structured", op, o, "0 <sig>", "signing with a valid structured key failed")
+                    continue
+                vf.append("dstu.vfy %d %s %d %s %s %s" % (i, hx(Pb), ld, hx(H), w[1], hx(Q)))
+                src.append(op)
+                if j < 1 or (j == 9 and i in heavy):
+                    self.sample(op, kind="bulk")
+                    self.sample(vf[-1], kind="bulk")
+            self.check_all_ok(vf, self.run_c(vf), "dstu.vfy", "Verify(Sign) != OK for a structured private key (public key = small multiple of +-P)", src)
+            self.count("dstu[%d]:sign+verify" % i, len(vf))
+            # key validation and compression round trip of the structured public keys
+            ops = ["dstu.pval %d %s" % (i, hx(Q)) for _, _, Q in pubs]
+            self.check_all_ok(ops, self.run_c(ops), "dstu.pval", "PointVal rejects the public key -dP of a structured d")
+            comp = ["dstu.comp %d %s" % (i, hx(Q)) for _, _, Q in pubs]
+            co = self.run_c(comp)
+            rec, want = [], []
+            for (k, Qt, Q), op, o in zip(pubs, comp, co):
+                w = o.split()
+                if w[0] == "0":
+                    rec.append("dstu.rec %d %s" % (i, w[1]))
+                    want.append("0 " + hx(Q))
+                elif not (Qt[0] == 1 and w[0] == "401"):
+                    self.srch.report("dstu.comp:structured", op, o, "0 <xpoint>", "Compress fails on a public key of order n")
+            for op, o, wnt in zip(rec, self.run_c(rec), want):
+                if o != wnt:
+                    self.srch.report("dstu.rec:structured", op, o, wnt, "Recover(Compress(Q)) != Q for the public key of a structured d")
+            if i in heavy or self.thorough:
+                for (k, Qt, Q), op in zip(pubs, comp):
+                    self.sample(op, kind="dstu.comp", cv=cv, P=Qt)
+            self.count("dstu[%d]:pval+comp+rec" % i, len(pubs))
+
+    # ---- pfok
+    def run_pfok(self):
+        for pf in self.pfok:
+            i, r = pf.i, pf.r
+            xs = [0, 1, 2, 3, (1 << r) - 3, (1 << r) - 2, (1 << r) - 1]
+            pb = lambda x: x.to_bytes(pf.mo, "little")
+            pc = ["pfok.pcalc %d %s" % (i, hx(pb(x))) for x in xs]
+            po = self.run_c(pc)
+            ys = []
+            for x, op, o in zip(xs, pc, po):
+                want = "0 " + hx(pf.pow(pf.g, x).to_bytes(pf.no, "little"))
+                if o != want:
+                    self.srch.report("pfok.pcalc:structured", op, o, want, "public key != g^(x) for a structured private key")
+                ys.append(unh(o.split()[1]) if o.startswith("0 ") else None)
+            kg = ["pfok.kgen %d %s" % (i, hx(pb(x))) for x in xs]
+            for x, y, op, o in zip(xs, ys, kg, self.run_c(kg)):
+                if y is not None and o != "0 %s %d" % (hx(pb(x) + y), pf.mo):
+                    self.srch.report("pfok.kgen:structured", op, o, "0 %s %d" % (hx(pb(x) + y), pf.mo), "KeypairGen(tape = x) != (x, PubkeyCalc(x))")
+            pv = ["pfok.pval %d %s" % (i, hx(y)) for y in ys if y is not None]
+            self.check_all_ok(pv, self.run_c(pv), "pfok.pval", "PubkeyVal rejects g^(x) of a structured private key")
+            pairs = [(a, b) for a in range(len(xs)) for b in range(a, len(xs)) if ys[a] is not None and ys[b] is not None]
+            dh = []
+            for a, b in pairs:
+                dh += ["pfok.dh %d %s %s" % (i, hx(pb(xs[a])), hx(ys[b])), "pfok.dh %d %s %s" % (i, hx(pb(xs[b])), hx(ys[a]))]
+            do = self.run_c(dh)
+            for t, (a, b) in enumerate(pairs):
+                want = "0 " + hx(pf.key(pf.pow(pf.g, xs[a] * xs[b])))
+                if do[2 * t] != do[2 * t + 1] or do[2 * t] != want:
+                    self.srch.report("pfok.dh:structured", dh[2 * t] + " || " + dh[2 * t + 1], do[2 * t], do[2 * t + 1] if do[2 * t] != do[2 * t + 1] else want,
+                                     "DH with structured private keys: the two parties disagree / key != n bits of g^(xa xb)")
+            quads = [tuple(self.rng.randrange(len(xs)) for _ in range(4)) for _ in range(24)] + [(1, 1, 1, 1), (0, 6, 6, 0), (6, 6, 6, 6), (1, 2, 3, 4)]
+            mt = []
+            for a, ua, b, ub in quads:
+                mt += ["pfok.mti %d %s %s %s %s" % (i, hx(pb(xs[a])), hx(pb(xs[ua])), hx(ys[b]), hx(ys[ub])),
+                       "pfok.mti %d %s %s %s %s" % (i, hx(pb(xs[b])), hx(pb(xs[ub])), hx(ys[a]), hx(ys[ua]))]
+            mo_ = self.run_c(mt)
+            for t, (a, ua, b, ub) in enumerate(quads):
+                want = "0 " + hx(pf.key(pf.pow(pf.g, xs[b] * xs[ua]) ^ pf.pow(pf.g, xs[ub] * xs[a])))
+                if mo_[2 * t] != mo_[2 * t + 1] or mo_[2 * t] != want:
+                    self.srch.report("pfok.mti:structured", mt[2 * t] + " || " + mt[2 * t + 1], mo_[2 * t], mo_[2 * t + 1] if mo_[2 * t] != mo_[2 * t + 1] else want,
+                                     "MTI with structured private keys: the two parties disagree / key != n bits of g^(xb ua) xor g^(ub xa)")
+            if i == 0 or self.thorough:
+                for x in xs[1:]:
+                    self.sample("pfok.pcalc %d %s" % (i, hx(pb(x))), kind="pfok.pcalc", pf=pf, x=x)
+                self.sample(dh[-2], kind="bulk")
+                self.sample(dh[-1], kind="bulk")
+                self.sample(mt[-2], kind="bulk")
+                self.sample(mt[-1], kind="bulk")
+            self.count("pfok[%d]:dh-pairs" % i, len(pairs))
+            self.count("pfok[%d]:mti-quads" % i, len(quads))
+
+    def run(self):
+        self.run_b96()
+        self.run_g12()
+        self.run_dstu()
+        self.run_pfok()
+
+
 def diff_par(ctx, exe, lines, label, nproc=6):
     """ctx.diff_run with the Lean side split over several driver processes (the model's affine arithmetic is slow)"""
     import concurrent.futures as cf
@@ -1181,6 +1436,10 @@ def run(ctx):
         if not o:
             break
         o, m, c = do_stage(lab, o, m)
+    # structured keys / nonces / hashes: bulk round trips on the implementation, a sample through the correspondence
+    st = Structured(ctx, sets, run_c, srch)
+    st.run()
+    do_stage("structured", st.sample_ops, st.sample_meta)
     # other build configurations of the library must give the same outputs (32-bit words, FAST editions)
     if ctx.tier == "thorough":
         for cfg in ("w32", "fast"):
@@ -1203,6 +1462,8 @@ def run(ctx):
     for _, ops, _, _ in stages:
         for op in ops:
             kinds[op.split()[0]] = kinds.get(op.split()[0], 0) + 1
+    ctx.cov["structured_round_trips"] = st.cov
+    ctx.cov["ops_structured_bulk_impl_only"] = sum(st.cov.values())
     ctx.cov.update({"ops_by_kind": kinds, "cases": g.cov, "correspondence_disagreements": len(all_mism),
                     "implementation_property_failures": len(srch.fail), "distinct_nontrivial": len(distinct),
                     "oracle_recomputed": {str(k): v for k, v in srch.nv.items()}})
@@ -1244,6 +1505,8 @@ def run(ctx):
              "verification of the implementation's own signatures and of their alterations (component = 0, = order, + order, every/sampled single bit of "
              "signature incl. padding octets, hash, public key; off-curve / twist / >= p / zero public keys; alterations that keep the reduced hash are "
              "expected to be accepted), KeypairVal/PubkeyVal/PointVal of generated keys, Recover(Compress P), both sides of DH and MTI. "
+             "structured round: d in {1,2,3,n-3,n-2,n-1} x 100 (300 thorough) signatures per set with hashes {0, all-ones, n, n+-1, k*n, random} and every 7th "
+             "nonce in {1, 2, largest injectable}, each verified on the implementation, a sample of every (set, key) also on the model. "
              "distinct_nontrivial = number of distinct implementation outputs",
         distinct=len(distinct))
 
